@@ -38,6 +38,7 @@ QUICK_CONFIGS = [
     (("std", "auto-collect", "finalization", "weak-ptrs", "cleaners"), True),   # everything
     (("std", "auto-collect", "weak-ptrs", "cleaners"), True),                   # everything minus finalization
     (("std", "auto-collect", "finalization", "weak-ptrs"), True),               # weak pointers without cleaners (cleaners implies weak-ptrs: a cfg naming the wrong one of the two shows only here)
+    (("std", "auto-collect", "finalization", "weak-ptrs", "cleaners"), False),  # everything with debug assertions off (release-like): code inside debug_assert! / cfg(debug_assertions) is gone
 ]
 THOROUGH_CONFIGS = [(fs, dbg) for fs in ALL_FEATURE_SETS for dbg in (True, False)]
 # the crate's internal extra-assertions feature: the rules must hold (and stay silent) there too
